@@ -198,23 +198,23 @@ Proof.
     split.
     + intros b Hb. rewrite S' in Hb. destruct (Nat.eq_dec b a) as [->|N]; [congruence|].
       specialize (Hi b Hb). unfold has_data, set_wc in *; simpl. now rewrite upd_other.
-    + apply okD; auto. apply (prot_needs s _ r (fun b H => H)); auto.
+    + apply okD; auto. simpl. refine (prot_needs s _ r _ HDr Hr). intros b Hb. exact Hb.
   - (* SBlobDel *)
     assert (S' : forall b, protected (set_blob s a false) b = protected s b) by reflexivity.
     split.
     + intros b Hb. rewrite S' in Hb. destruct (Nat.eq_dec b a) as [->|N]; [congruence|].
       specialize (Hi b Hb). unfold has_data, set_blob in *; simpl. now rewrite upd_other.
-    + apply okD; auto. apply (prot_needs s _ r (fun b H => H)); auto.
+    + apply okD; auto. simpl. refine (prot_needs s _ r _ HDr Hr). intros b Hb. exact Hb.
   - (* SMetaMark *)
     apply K.
     + apply meta_mark_shrink.
     + destruct ((m =? 1) && wcen c); reflexivity.
     + destruct (m =? 1) eqn:E; simpl; [|constructor].
-      apply Nat.eqb_eq in E; subst m. destruct (wcen c); constructor; [|constructor].
-      simpl. apply meta_mark_forced.
+      apply Nat.eqb_eq in E; subst m.
+      destruct (wcen c); [constructor; [apply meta_mark_forced|constructor]|constructor].
   - (* SGcCollect *)
     destruct (pe s =? gep s); [|destruct (gep s <? pe s)]; simpl.
-    + apply (K s [SGcGarbage]); auto using shrink_refl. repeat constructor.
+    + apply (K s [SGcGarbage]); auto using shrink_refl; repeat constructor.
     + apply (K (set_pe s (gep s)) [SGcGarbage]); [repeat split; auto|auto|repeat constructor].
     + set (l := expired_list c s (gep s)).
       set (ts := filter (fun a => is_tomb (tmpl c a)) l).
@@ -226,9 +226,176 @@ Proof.
       * apply Forall_app; split; [destruct ts; repeat constructor|].
         apply Forall_app; split; [apply Forall_map_need; simpl; auto|repeat constructor].
   - (* SGcGarbage *)
-    destruct (garbage_list c s); simpl; apply (K s); auto using shrink_refl; repeat constructor.
+    destruct (garbage_list c s) as [|g gl]; simpl;
+      [apply (K s []) | apply (K s [SMetaDel (g :: gl)])]; auto using shrink_refl; repeat constructor.
   - (* SEpoch *)
     apply (K (set_epoch s e) []); auto. repeat split; auto.
   - (* SRestart *)
     apply (K _ []); auto. repeat split; auto.
 Qed.
+
+Lemma data_grows_wc s a : inv s -> inv (set_wc s a true).
+Proof.
+  intros Hi b Hb. specialize (Hi b Hb). unfold has_data, set_wc in *; simpl.
+  destruct (Nat.eq_dec b a) as [->|N]; [rewrite upd_same; apply orb_true_r|now rewrite upd_other].
+Qed.
+Lemma data_grows_blob s a : inv s -> inv (set_blob s a true).
+Proof.
+  intros Hi b Hb. specialize (Hi b Hb). unfold has_data, set_blob in *; simpl.
+  destruct (Nat.eq_dec b a) as [->|N]; [now rewrite upd_same|now rewrite upd_other].
+Qed.
+
+Lemma exec_ok c s x r :
+  inv s -> okc s (x :: r) -> rb_safe c s x ->
+  inv (fst (fst (exec c s x))) /\ okc (fst (fst (exec c s x))) (snd (fst (exec c s x)) ++ r).
+Proof.
+  intros Hi Hok Hsafe. inversion Hok; subst.
+  - (* delete-like continuation *)
+    simpl in H. apply andb_prop in H as [Hx Hr']. inversion H0; subst. apply exec_D; auto.
+  - (* put: data write *)
+    simpl. destruct (wcen c); simpl; split; auto using data_grows_wc, data_grows_blob;
+      apply okPut1; unfold has_data, set_wc, set_blob; simpl; rewrite upd_same; auto using orb_true_r.
+  - (* put: metabase update *)
+    simpl. destruct f; simpl.
+    + split; auto. apply okD; [reflexivity|repeat constructor].
+    + destruct (meta_put c s a) as [s' ok] eqn:E. destruct ok; simpl.
+      * apply meta_put_prot in E as (Hp & Hb & Hw). split.
+        -- intros b Hb'. unfold has_data. rewrite Hb, Hw.
+           destruct (Hp b Hb') as [P | ->]; [now apply Hi|exact H0].
+        -- apply okD; [reflexivity|constructor].
+      * split; auto. apply okD; [reflexivity|repeat constructor].
+  - (* flush: read *)
+    simpl. destruct (wc s a); simpl; split; auto; [apply okFl1|apply okD; [reflexivity|constructor]].
+  - (* flush: blob put *)
+    simpl. split; auto using data_grows_blob. apply okFl2. unfold set_blob; simpl. apply upd_same.
+  - (* flush: cache delete *)
+    simpl. split; [|apply okD; [reflexivity|constructor]].
+    intros b Hb. change (protected s b = true) in Hb. specialize (Hi b Hb).
+    unfold has_data, set_wc in *; simpl. destruct (Nat.eq_dec b a) as [->|N].
+    + now rewrite H0.
+    + now rewrite upd_other.
+  - (* resync *)
+    simpl in H. apply andb_prop in H as [Hx Hr']. destruct x; simpl in Hx; try discriminate; simpl.
+    + split; [intros b Hb; discriminate|now apply okRs].
+    + destruct (blob s a) eqn:B; simpl; [|split; auto; now apply okRs].
+      match goal with |- context [meta_put c ?s0 a] => destruct (meta_put c s0 a) as [s' ok] eqn:E end.
+      simpl. split; [|now apply okRs].
+      apply meta_put_prot in E as (Hp & Hb & Hw).
+      intros b Hb'. change (protected s' b = true) in Hb'. unfold has_data; simpl. rewrite Hb, Hw.
+      assert (Q : blob (if e0 then {| ent := ent s; mk := mk s; blob := blob s; wc := wc s; ep := 0; gep := gep s; pe := pe s |} else s) = blob s
+                  /\ wc (if e0 then {| ent := ent s; mk := mk s; blob := blob s; wc := wc s; ep := 0; gep := gep s; pe := pe s |} else s) = wc s)
+        by (destruct e0; auto).
+      destruct Q as [Q1 Q2]. rewrite Q1, Q2.
+      destruct (Hp b Hb') as [P | ->]; [|now rewrite B].
+      apply Hi. destruct e0; exact P.
+Qed.
+
+(* ---- the machine ------------------------------------------------------------------------ *)
+
+Definition minv (m : mst) : Prop := inv (st m) /\ okc (st m) (cur m).
+
+Lemma init_op_ok c s o : okc s (init_op c o).
+Proof.
+  destruct o; simpl.
+  - apply okPut0.
+  - destruct l; apply okD; try reflexivity; repeat constructor.
+  - apply okD; [reflexivity|repeat constructor].
+  - apply okD; [reflexivity|repeat constructor].
+  - apply okD; [reflexivity|repeat constructor].
+  - destruct (wcen c); [apply okFl0|apply okD; [reflexivity|constructor]].
+  - apply okD; [reflexivity|repeat constructor].
+  - apply okRs. simpl. induction ord; simpl; auto.
+Qed.
+
+Lemma tick_ok c m : minv m -> bad_head c m = false -> minv (tick c m).
+Proof.
+  intros [Hi Hc] Hb. unfold tick. destruct (cur m) as [|x r] eqn:Ec.
+  - destruct (todo m) as [|o os]; [split; [auto|rewrite Ec; auto]|].
+    split; simpl; auto. apply init_op_ok.
+  - assert (Hs : rb_safe c (st m) x).
+    { unfold bad_head in Hb. rewrite Ec in Hb. destruct x; simpl; auto. }
+    pose proof (exec_ok c (st m) x r Hi Hc Hs) as H.
+    destruct (exec c (st m) x) as [[s' ex] f]. simpl in H. exact H.
+Qed.
+
+Lemma run_n_S c ops n : run_n c ops (S n) = tick c (run_n c ops n).
+Proof. reflexivity. Qed.
+
+Lemma run_n_ok c ops n : clean_run c ops n = true -> minv (run_n c ops n).
+Proof.
+  induction n; intros H.
+  - split; simpl; [intros a Ha; discriminate|apply okD; [reflexivity|constructor]].
+  - simpl in H. apply andb_prop in H as [H1 H2]. rewrite run_n_S. apply tick_ok; auto.
+    now apply negb_true_iff.
+Qed.
+
+Lemma exists_ent c s e a : exists_obs c s e a = 1 -> ent s a = true.
+Proof.
+  unfold exists_obs. destruct (status c s e a) as [|[|[|[|?]]]]; try discriminate;
+    destruct (ent s a); auto; discriminate.
+Qed.
+
+(* C15: every history, every crash point n *)
+Theorem crash_available_readable c ops n a :
+  clean_run c ops n = true ->
+  let s := reopen (run_n c ops n) in
+  available c s a = true -> mk s a <> 1 -> blob s a = true \/ wc s a = true.
+Proof.
+  intros Hc s Ha Hm. destruct (run_n_ok c ops n Hc) as [Hi _].
+  unfold available in Ha. apply Nat.eqb_eq in Ha. apply exists_ent in Ha.
+  assert (P : protected (st (run_n c ops n)) a = true).
+  { unfold protected. change (ent (st (run_n c ops n)) a) with (ent s a). rewrite Ha. simpl.
+    change (mk (st (run_n c ops n)) a) with (mk s a). apply negb_true_iff. now apply Nat.eqb_neq. }
+  apply Hi in P. unfold has_data in P. apply orb_prop in P. exact P.
+Qed.
+
+(* an available object that no lock keeps available carries no forced mark *)
+Lemma unlocked_available_unmarked c s a :
+  available c s a = true -> locked c s (ep s) a = false -> mk s a <> 1.
+Proof.
+  unfold available, exists_obs, status. intros H L. rewrite L in H. rewrite andb_false_r in H.
+  destruct (is_exp c s (ep s) a); [discriminate|].
+  unfold in_garb in H. destruct (tombstoned c s a); [discriminate|].
+  destruct (mk s a =? 1) eqn:E; [discriminate|]. now apply Nat.eqb_neq.
+Qed.
+
+Theorem crash_unlocked_available_readable c ops n a :
+  clean_run c ops n = true ->
+  let s := reopen (run_n c ops n) in
+  available c s a = true -> locked c s (ep s) a = false -> blob s a = true \/ wc s a = true.
+Proof.
+  intros Hc s Ha Hl. apply crash_available_readable; auto. eapply unlocked_available_unmarked; eauto.
+Qed.
+
+(* a rollback is unsafe only for an address that is tombstoned without carrying
+   the mark every tombstone sets on its target *)
+Lemma bad_rb_tombstoned c s a : bad_rb c s a = true -> tombstoned c s a = true /\ ent s a = true /\ mk s a <> 1.
+Proof.
+  unfold bad_rb, protected. intros H. apply andb_prop in H as [H1 H2]. apply andb_prop in H1 as [He Hm].
+  apply negb_true_iff in Hm. apply Nat.eqb_neq in Hm. apply negb_true_iff in H2.
+  repeat split; auto.
+  unfold exists_obs, status in H2. rewrite He in H2.
+  assert (X : is_exp c s 0 a = false).
+  { unfold is_exp. destruct (oexp (tmpl c a)); simpl; [apply andb_false_r|apply andb_false_r]. }
+  rewrite X in H2. unfold in_garb in H2 |- *.
+  destruct (tombstoned c s a); auto.
+  apply Nat.eqb_neq in Hm. rewrite Hm in H2. simpl in H2. discriminate.
+Qed.
+
+(* ---- link to the comparison functions ------------------------------------------------------ *)
+From NV Require Import Crash.Check.
+
+(* the model state every observed crash point is compared with is the state after
+   some number n of ticks of the same history: a state the theorems above speak about *)
+Lemma seek_iter fuel c p m m' :
+  seek fuel c p m = Some m' -> exists n, m' = Nat.iter n (tick c) m.
+Proof.
+  revert m; induction fuel; intros m H; simpl in H.
+  - destruct (at_point c p m); [|discriminate]. inversion H. now exists 0.
+  - destruct (at_point c p m); [inversion H; now exists 0|].
+    apply IHfuel in H as [n ->]. exists (S n). now rewrite Nat.iter_succ_r.
+Qed.
+
+Theorem seek_is_run_n fuel c p ops m :
+  seek fuel c p (start ops) = Some m -> exists n, m = run_n c ops n.
+Proof. apply seek_iter. Qed.
